@@ -24,7 +24,7 @@ def jobs(tier):
                       pre=["len(s) <= 2" if (entry == 1 or not q) else "len(s) <= 1"],
                       fixed={"pre": "", "post": "", "entry": entry}, timeout=600 if q else 1800, functions=F,
                       note="all strings of length <= 2: a Circuit, or JaqalError; JaqalParseError carries a position inside the text (a non-blank character) or EOF"))
-    n = 1 if q else 2
+    n = 1
     for k, (a, b) in enumerate(CTX[:9] if q else CTX):
         out.append(CH(name=f"c16_total_hole{k}", base="c16_total", func=f"{H}:c16_total", params=[("s", "str")], pre=[f"len(s) <= {n}"],
                       fixed={"pre": a, "post": b, "entry": 0}, timeout=900 if q else 3000, functions=F, twin=False,
